@@ -114,8 +114,13 @@ def gen_decl(r, kind_choice=None, avoid=()):
     if r.random() < 0.5:
         # half of the declarations are fully orderable/hashable, so that the derived Ord / Hash are exercised on wide records too
         ftypes = [t for t in ftypes if t in ("int", "str", "bool", "list_int", "list_str", "nested")] or ftypes
+    # field names: plain ones, and legal identifiers a serialiser might be tempted to treat specially (trailing/leading underscore,
+    # Rust keywords spelt with an underscore, upper case, digits) - the JSON keys must be exactly the declared names
+    odd = ["type_", "from_", "id_", "_hidden", "kind", "Value", "x1_y2", "self_", "match_", "a__b", "json", "key"]
+    r.shuffle(odd)
     for i in range(nf):
-        fields.append(("f%d" % i, r.choice(ftypes)))
+        fname = odd.pop() if r.random() < 0.35 else "f%d" % i
+        fields.append((fname, r.choice(ftypes)))
     has_float = any(t == "float" for _, t in fields)
     has_dict = any(t == "dict_str_int" for _, t in fields)
     has_opt = any(t.startswith("opt") for _, t in fields)
@@ -138,7 +143,8 @@ def gen_decl(r, kind_choice=None, avoid=()):
             if ft in ("int", "str", "bool"):
                 defaults[fn] = gen_value(r, ft)
             elif ft in ("opt_int", "opt_str"):
-                defaults[fn] = None
+                # `= None`, or a default that is not None (then an explicit None argument must still mean None)
+                defaults[fn] = None if r.random() < 0.5 else (7 if ft == "opt_int" else "anon")
             elif ft in ("list_int", "list_str"):
                 defaults[fn] = []
             else:
